@@ -104,6 +104,15 @@ Lemma sqrt_pair t a :
   cpow C (getf64 C a) (clit C Lhalf) = cfn C FSqrt (getf64 C a) -> SQRT C t a = sqrt_ C t a.
 Proof. intros H. unfold SQRT, UN, sqrt_, pow, half_c. cbn [snd getf64]. rewrite H. reflexivity. Qed.
 
+(* HEAD 2fc8894: ABS switches on a.Sign() (the argument) with the Reset case, like Abs *)
+Lemma abs_pair t cold a : bare t -> wt C t a -> ABS C t cold a = abs_ C t (t, a).
+Proof.
+  intros Hb Ha. unfold ABS, abs_. cbn [snd].
+  destruct (sign C (t, a)) as [z| | |]; cbn [bind]; try reflexivity.
+  destruct (z =? -1); [now apply neg_pair|]. destruct (z =? 0); [reflexivity|now apply set_pair].
+Qed.
+
+Definition not_sqrt (p : bpair) : Prop := match p with BSqrtP => False | _ => True end.
 Definition not_abs_sqrt (p : bpair) : Prop := match p with BAbsP | BSqrtP => False | _ => True end.
 
 Lemma bare_pairs_agree p t cold a b :
@@ -112,6 +121,13 @@ Proof.
   intros Hb Ha Hbw Hp. destruct p; cbn [b_concrete b_generic]; try contradiction.
   - now apply arith_pair. - now apply neg_pair. - now apply min_pair. - now apply max_pair.
   - now apply set_pair. - apply pow_pair. - apply un_pair. - apply un_pair. - apply un_pair.
+Qed.
+
+Lemma bare_pairs_agree_but_sqrt p t cold a b :
+  bare t -> wt C t a -> wt C t b -> not_sqrt p -> b_concrete C p t cold a b = b_generic C p t cold a b.
+Proof.
+  intros Hb Ha Hbw Hp. destruct p; try (apply bare_pairs_agree; assumption || exact I); try contradiction.
+  cbn [b_concrete b_generic]. now apply abs_pair.
 Qed.
 
 Lemma bare_sqrt_agree t cold a b :
